@@ -37,7 +37,7 @@ m = {
     ],
     "checks": checks,
     "not_applicable": [],
-    "notes": "Genuine defects found on the pinned tree were repaired by fix: commits in /repo (list: KNOWN_FINDINGS.txt, DESIGN.md §14); the two that were not repaired are listed there as known findings.",
+    "notes": "Genuine defects found on the pinned tree were repaired by fix: commits in /repo (list: KNOWN_FINDINGS.txt, DESIGN.md §14); the three that were not repaired (marker-tail, stale-cache-create, zero-bucket) are listed there as known findings.",
 }
 with open(os.path.join(VERIF, "MANIFEST.json"), "w") as f:
     json.dump(m, f, indent=1)
